@@ -124,6 +124,120 @@ func rulePhaseProgress(c *RC) *RuleResult {
 			r.unresolved("exits of " + root.Name)
 		}
 	}
+	// the checks are *reached*: an API call that adds a payload to a table (a received one or the node's own) looks
+	// whether the table's step is due before it returns — the stored payload may be the one that completes the quorum,
+	// and for a single validator the node's own proposal is the whole quorum. Same excuses as above, plus "a view change
+	// was asked for instead" and "the block of the height is out" (nothing is due any more)
+	tableOf := map[string]string{"preparations": "ctx.PreparationPayloads", "pre-commits": "ctx.PreCommitPayloads", "commits": "ctx.CommitPayloads", "change views": "ctx.ChangeViewPayloads"}
+	cvSenders := c.senderOf("ChangeViewType")
+	// verdict of one exit: "" = the check was reached or there is an accepted reason not to; otherwise the path
+	judge := func(e *State, ph phase) string {
+		if e.Events["fn:"+ph.fn.Name] || e.Events["fn:"+c.phaseRoot(ph.fn).Name] {
+			return ""
+		}
+		for _, x := range ph.events {
+			if e.Events[x] {
+				return ""
+			}
+		}
+		// (not every excuse of the check functions is one here: "the quorum is not there" or "the node has not sent its
+		// own commit yet" are what the check is there to find out)
+		accepted := func(why string) bool {
+			if strings.HasPrefix(why, "a callback") && strings.Contains(why, "(l:ret:") {
+				return false // the result of one of the module's own functions (a built payload, say), not an application callback
+			}
+			return why == "a transaction is missing" || strings.HasPrefix(why, "a callback") || strings.HasPrefix(why, "the block object") ||
+				why == "the node is not a validator" || why == "the node is watch-only"
+		}
+		for k, v := range e.F.m {
+			// (as a mere fact of the state — not a decision of the path — only what describes the node or the proposal)
+			if why := excuseLit(Lit{e.F.atoms[k], v}, allTx); why == "a transaction is missing" || why == "the node is not a validator" || why == "the node is watch-only" {
+				return ""
+			}
+		}
+		for _, l := range e.TrailL {
+			if accepted(excuseLit(l, allTx)) {
+				return ""
+			}
+		}
+		for _, f := range cvSenders {
+			if e.Events["fn:"+f.Name] {
+				return ""
+			}
+		}
+		for _, ini := range c.initialisers() {
+			if e.Events["fn:"+ini.Name] {
+				return ""
+			}
+		}
+		if v, known := e.F.value(mkAtom("b", fld("ctx.blockProcessed", false), nil)); known && v {
+			return ""
+		}
+		return "{" + strings.Join(e.Trail, "; ") + "}"
+	}
+	for _, ph := range phases {
+		table := tableOf[ph.name]
+		if table == "" {
+			continue
+		}
+		seenRoot := map[*FuncInfo]bool{}
+		for _, ws := range c.writesTo(table) {
+			if ws.Store&(KillNNOwn|KillNNSender|KillNNPrimary|KillNNOther) == 0 || c.inEpoch(ws.Fn) {
+				continue
+			}
+			root := c.phaseRoot(ws.Fn)
+			if seenRoot[root] || root == c.phaseRoot(ph.fn) {
+				continue
+			}
+			seenRoot[root] = true
+			r.Sites++
+			bad := ""
+			for _, e := range c.exitsOf(root) {
+				kl := e.Killed[table]
+				if kl&(KillNNOwn|KillNNSender|KillNNPrimary|KillNNOther) == 0 || kl&KillAny != 0 {
+					continue
+				}
+				if why := judge(e, ph); why != "" {
+					bad = why
+				}
+			}
+			if bad == "" {
+				r.ok(fmt.Sprintf("%s: a payload added to %s is followed by the %s check (or an accepted reason not to)", root.Name, table, ph.name))
+				continue
+			}
+			// the storing function leaves it to its callers: each of them does it then
+			callers := c.A.callers[root]
+			if len(callers) == 0 {
+				r.fail(root.Name+"/unchecked-store:"+ph.name, c.Prog.Pos(root.Decl), fmt.Sprintf("%s adds a payload to %s and returns without looking whether the %s step is due, on path %s: if that payload completes the quorum (for a single validator its own proposal does) the node sits on a full table until its timer fires", root.Name, table, ph.name, bad))
+				continue
+			}
+			seenCaller := map[*FuncInfo]bool{}
+			okAll := true
+			for _, cs := range callers {
+				g := c.phaseRoot(cs.Fn)
+				if seenCaller[g] {
+					continue
+				}
+				seenCaller[g] = true
+				for _, e := range c.exitsOf(g) {
+					if !e.Events["fn:"+root.Name] {
+						continue
+					}
+					if why := judge(e, ph); why != "" {
+						okAll = false
+						r.fail(g.Name+"/unchecked-store:"+ph.name, c.Prog.Pos(cs.Node), fmt.Sprintf("%s (through %s) adds a payload to %s and returns without looking whether the %s step is due, on path %s: if that payload completes the quorum (for a single validator its own proposal does) the node sits on a full table until its timer fires", g.Name, root.Name, table, ph.name, why))
+						break
+					}
+				}
+			}
+			if okAll {
+				r.ok(fmt.Sprintf("%s leaves the %s check to its callers, each of which makes it", root.Name, ph.name))
+			}
+		}
+	}
+	if len(r.Samples) > 6 {
+		r.Samples = r.Samples[:6]
+	}
 	return r
 }
 
